@@ -315,3 +315,21 @@ def core_lattice(rng, tier):
              [(r, p, 'B' if i in (0, 3) else 'A')
               for i, (r, p) in enumerate(p7)])
     return out
+
+
+
+def tight_among_loose(rng, gap_model='flow'):
+    """A tightly fitting 3-ring bundle surrounded by loosely fitting 4-ring
+    bundles in the same duct: the coarser assembly has the shorter corner
+    duct cells, so its corner cells lie inside the gap's corner cells."""
+    OF = 0.060
+    A3 = fitted_type(3, OF)
+    B4 = fitted_type(4, OF, clearance=0.006)
+    tys = {'A': A3, 'B': B4}
+    names = ['A', 'B', 'B', 'B', 'B', 'B', 'B']
+    p7 = layout_positions(7)
+    return make_core(rng, tys, [(r_, p_, names[i]) for i, (r_, p_) in
+                                enumerate(p7)],
+                     [flow_for(tys[n], 0.08) for n in names],
+                     gap_model=gap_model, bypass_fraction=0.03, ncell=2,
+                     power_order=1)
